@@ -72,7 +72,7 @@ static pid_t process_fork(const int *except, size_t num_except)
   ENS("C04+C05/process_fork.failure_leaves_no_child", IMPLIES(!g.in_child && RV < 0, !g.child_live && (g.child_pid == 0 || g.child_reaped)))
   ENS("C04/process_fork.failure_is_real_cause", IMPLIES(!g.in_child && RV < 0 && OLD(g.e.faults) == 0, (g.e.faults > 0 && RV == -g.e.first_errno) || (g.child_fate == FATE_FAILED_EARLY && RV == -g.child_fate_errno)))
   ENS("C04/process_fork.success_has_no_failed_call", IMPLIES(RV >= 0, g.e.faults == OLD(g.e.faults)))
-  ENS("C04/process_fork.side_of_fork", IMPLIES(g.in_child, gc.cfg_child_side) && IMPLIES(RV > 0, !gc.cfg_child_side) && g.dup_ptr == OLD(g.dup_ptr) && g.dup_src == OLD(g.dup_src) && g.prep_ptr == OLD(g.prep_ptr) && g.prep_src == OLD(g.prep_src) && g.execd == OLD(g.execd) && g.env_ptr == OLD(g.env_ptr) && g.env_a == OLD(g.env_a) && g.env_b == OLD(g.env_b) && g.last_freed_vec == OLD(g.last_freed_vec) && g.cwd_id == OLD(g.cwd_id) && g.now == OLD(g.now) && g.in_fd == OLD(g.in_fd) && g.stream_pos == OLD(g.stream_pos) && g.plan_pos == OLD(g.plan_pos))
+  ENS("C04/process_fork.side_of_fork", IMPLIES(g.in_child, gc.cfg_child_side) && IMPLIES(RV > 0, !gc.cfg_child_side) && g.dup_ptr == OLD(g.dup_ptr) && g.dup_src == OLD(g.dup_src) && g.prep_ptr == OLD(g.prep_ptr) && g.prep_src == OLD(g.prep_src) && g.execd == OLD(g.execd) && g.env_ptr == OLD(g.env_ptr) && g.env_a == OLD(g.env_a) && g.env_b == OLD(g.env_b) && g.last_freed_vec == OLD(g.last_freed_vec) && g.exit_moved_to == OLD(g.exit_moved_to) && g.cwd_id == OLD(g.cwd_id) && g.now == OLD(g.now) && g.in_fd == OLD(g.in_fd) && g.stream_pos == OLD(g.stream_pos) && g.plan_pos == OLD(g.plan_pos))
   ENS("C10/process_fork.excepted_descriptors_keep_their_objects", OBJ_KEPT(except[0]) && OBJ_KEPT(except[1]) && OBJ_KEPT(except[2]) && OBJ_KEPT(except[3]) && OBJ_KEPT(except[4]) && OBJ_KEPT(except[5]) && (g.fds.rd & EXCEPT6_MASK(except)) == (OLD(g.fds.rd) & EXCEPT6_MASK(except)) && (g.fds.wr & EXCEPT6_MASK(except)) == (OLD(g.fds.wr) & EXCEPT6_MASK(except)))
   ENS("C06/process_fork.parent_sends_no_signal", g.nsig == OLD(g.nsig) && g.kill_calls == OLD(g.kill_calls))
   ENS("C12/process_fork.child_clean_signal_state", IMPLIES(g.in_child, RV == 0 && g.sigmask == 0 && DISP_ALL_DEFAULT))
